@@ -292,6 +292,7 @@ class World:
         self.min_items = min_items
         self.calls = []          # [(path tuple, field type, outcome)]
         self.injected_nonfinite = False
+        self.shared = {}         # shared ResolverError instances of this request
 
     def rng_for(self, path):
         return random.Random(zlib.crc32(repr((self.seed, tuple(path))).encode()))
@@ -341,7 +342,9 @@ class World:
         if rng.random() < self.p_raise:
             msg = rng.choice(MESSAGES)
             ext = rng.choice(EXTENSIONS)
-            cls = rng.choice([0, 1])
+            # 0: fresh ResolverError, 1: fresh application subclass, 2: ONE shared instance per (message, extensions)
+            # raised again and again (a module-level constant such as NOT_FOUND), 3: fresh, constructed with a bogus path
+            cls = rng.choice([0, 1, 2, 2, 3])
             return ("raised", msg, ext, cls)
         return ("value", self.value_of(ftype, rng))
 
@@ -353,7 +356,15 @@ class World:
         o = self.outcome(path, ftype)
         self.calls.append((path, ftype, [n.loc[0] for n in info.nodes], o))
         if o[0] == "raised":
-            cls = _MyError() if o[3] else ResolverError
+            if o[3] == 2:
+                key = (o[1], repr(o[2]))
+                err = self.shared.get(key)
+                if err is None:
+                    err = self.shared[key] = ResolverError(o[1]) if o[2] is None else ResolverError(o[1], extensions=o[2])
+                raise err
+            if o[3] == 3:
+                raise ResolverError(o[1], path=["bogus", 0], extensions=o[2])
+            cls = _MyError() if o[3] == 1 else ResolverError
             if o[2] is None:
                 raise cls(o[1])
             raise cls(o[1], extensions=o[2])
